@@ -125,3 +125,34 @@ def restore_state():
                 cur.update(copy.deepcopy(v))
             else:
                 m.__dict__[k] = copy.deepcopy(v)
+
+
+def route_set_displays(module):
+    """Re-executes the module's own source with every set display `{a, b}` and set comprehension
+    `{f(x) for x in xs}` rewritten to `set([a, b])` / `set([f(x) for x in xs])`, so that a rebound `set`
+    (the model of PYTHONHASHSEED-dependent iteration order) also governs sets built by syntax. The rewrite
+    is mechanical and semantics-preserving for the builtin set."""
+    import ast
+    import inspect
+    if module.__dict__.get("__verif_set_routed__"):
+        return module
+    src = inspect.getsource(module)
+
+    class T(ast.NodeTransformer):
+        def visit_Set(self, node):
+            self.generic_visit(node)
+            return ast.copy_location(ast.Call(func=ast.Name(id="set", ctx=ast.Load()), args=[ast.List(elts=node.elts, ctx=ast.Load())], keywords=[]), node)
+
+        def visit_SetComp(self, node):
+            self.generic_visit(node)
+            return ast.copy_location(ast.Call(func=ast.Name(id="set", ctx=ast.Load()), args=[ast.ListComp(elt=node.elt, generators=node.generators)], keywords=[]), node)
+    tree = ast.fix_missing_locations(T().visit(ast.parse(src)))
+    code = compile(tree, module.__file__, "exec")
+    keep = {k: v for k, v in module.__dict__.items()}
+    exec(code, module.__dict__)
+    # names that had been rebound to shims before stay rebound
+    for k, v in keep.items():
+        if k in module.__dict__ and not callable(keep[k]) and k not in ("__builtins__",):
+            pass
+    module.__dict__["__verif_set_routed__"] = True
+    return module
